@@ -43,5 +43,5 @@ Definition dispatch (cmd : string) (a : val) : val :=
   else if String.eqb cmd "clean" then
     let c := clean d in VL [VDir (fst c); VN (snd c)]
   else if String.eqb cmd "upper" then VS (up (getS (arg 4 a)))
-  else if String.eqb cmd "lower_l1" then VS (map lower_l1 (getS (arg 4 a)))
+  else if String.eqb cmd "lower" then VS (map lower_b (getS (arg 4 a)))
   else VErr "unknown command".
